@@ -46,11 +46,14 @@
    * "Debug output of a Map or Set is exactly the standard map/set debug rendering (plain ...)"
        C19_debug_map_plain, C19_debug_set_plain : plain form = '{' ++ join ", " ("k: v" / k) ++ '}'.
    * "... (and alternate form)"
-       NO independent theorem.  The alternate form is [debug_map dk dv true] / [debug_set dk true],
-       i.e. BY DEFINITION the model of std's pretty printer (PadAdapter: one entry per line,
-       four-space indent, trailing ','); that this model is what std prints is validated by the
-       correspondence check (style 2), not proved.  What IS proved for it is that it is applied
-       to exactly the current entries (next item).
+       [debug_map dk dv true] / [debug_set dk true] are the model of std's pretty printer
+       (PadAdapter); that this model is what std prints is validated by the correspondence check
+       (style 2), not proved.  Its SHAPE is now proved (APPENDED SECTION at the end of this file):
+       C19_debug_map_alt, C19_debug_set_alt, C19_debug_keys_alt, C19_debug_values_alt,
+       C19_debug_pairs_alt ("{\n" / "[\n", one four-space-indented line "k: v,\n" / "x,\n" per
+       entry, "}" / "]", when no entry rendering contains a newline), the general case with
+       newlines inside entries C19_debug_map_alt_lines / _set_ / _pairs_ (every line of every
+       entry indented: C19_pad_indent_lines), and on the interpreter C19_format_m_explicit.
    * "of its entries in iteration order" + "formatting never changes the container"
        C19_format_m_pure, C19_format_s_pure : on every well-formed container, formatting in any
        of the three styles returns normally (no panic, no UB) the rendering of EXACTLY
@@ -82,20 +85,24 @@
        (Exec.dbg_range) is the debug_pairs rendering (plain or alternate) of skipn n elems.
 
    PARTLY COVERED / NOT COVERED BY A THEOREM
-     - alternate form {:#?}: see above (definition = model of std; correspondence check).
+     - alternate form {:#?}: shape CLOSED (appended section); that the PadAdapter model is what
+       std prints stays with the correspondence check.
      - Drain: CLOSED.  Its Debug is [debug_pairs .. (range_list (self w) (lo, hi))] on a
        container whose len has already been reset to 0, so C19_range_list_spec (which needs
        hi <= len) does not apply to it; C19_drain_debug_rest / C19_drain_debug_rest_render now
        compose IterSpec.drain_run_strong with the renderer.  (Stated for a Drain consumed by
        next() from the front; Set::drain is the same function on Map<T,()>, with debug_keys
        over map fst of that list - that projection is glue, see below.)
-     - the Debug impls of the set-algebra iterators (src/set/difference.rs etc.) are rendered
-       with debug_keys over the keys still to come as computed by the interpreter; no theorem
-       here relates that list to Algebra's specification (Props/C08.v).
-     - the per-iterator-kind glue (which of debug_pairs/keys/values a kind uses, mapping fst/snd
-       over the range) lives in Exec.dbg_iter / dbg_into / dbg_range and is exercised by the
-       correspondence check only.
-     - element renderings (dbg_key, dsp_key, ...) are the harness' own Debug/Display impls.     *)
+     - the Debug impls of the set-algebra iterators (src/set/difference.rs etc.): CLOSED in the
+       appended section (C19_alg_debug_spec, C19_alg_session_debug: the rendered list is the
+       specification's list of Algebra.v / Algebra2.v, Props/C08.v).
+     - the per-iterator-kind glue (Exec.dbg_iter / dbg_into / dbg_range): CLOSED in the appended
+       section (C19_iter_debug_rest_render, C19_iter_steps_debug_rest, C19_into_debug_rest_render,
+       C19_into_steps_debug_rest).  The model has no Debug function for the Set iterator kinds
+       (SetIter, SetIntoIter, SetDrain), so nothing is stated about them.
+     - element renderings (dbg_key, dsp_key, ...) are the harness' own Debug/Display impls: pure,
+       total functions of the object (see the appended section for what that assumption means).
+     - width / precision / fill / sign flags are outside every statement (appended section).     *)
 (* ========================================================================== *)
 Require Import Model.Base Model.Slots Model.MapOps Model.Fmt Model.Exec.
 Require Import Proofs.Hoare Proofs.Inv Proofs.Safety Proofs.Safety2 Proofs.Spec Proofs.Lawful.
@@ -346,3 +353,553 @@ Example C19_example_drain_debug :
   | _ => False
   end.
 Proof. vm_compute. repeat split; reflexivity. Qed.
+
+(* ========================================================================== *)
+(* APPENDED SECTION (audit findings on C19) — Proofs/MoreFmt.v
+   ========================================================================== *)
+(* WHAT IS ASSUMED ABOUT ELEMENT Debug / Display IMPLS (finding 4).  The rendering of a key /
+   value is a Gallina function of the OBJECT ([dk : K -> str], [dv : V -> str]; for the
+   interpreter dbg_key / dbg_val / dsp_key / dsp_val): PURE (reads and writes no callback state,
+   logs nothing, cannot reach the container), TOTAL (cannot panic or diverge), DETERMINISTIC.
+   Element impls that panic, mutate through interior mutability or answer differently each time
+   are outside the model.  That is why C19_format_m_pure / C19_format_s_pure are close to
+   definitional; what they do establish: the checked slice [..len] does not panic on a well-formed
+   container, the raw slot reading is the live prefix, the world is returned as is.
+
+   FORMATTER FLAGS (finding 5).  Width / precision / fill / alignment / sign flags ("{:>10}",
+   "{:.3}", "{:+}") are OUTSIDE every statement of this file: the model's renderers take no flag
+   except '#' (the [alt] argument).  The crate's impls hand the formatter to the elements; the
+   runtime oracle FMT_SHAPE of the correspondence check exercises flags for Debug.
+
+   New vocabulary (Proofs/MoreFmt.v):
+     nlfree s                 — the string s contains no '\n';
+     split_nl s = (lns, last) — s cut at its newlines: lns the complete lines (without '\n'),
+                                last the unterminated rest;  unlines_nl lns last puts it back;
+     indent_lines lns last    — every line of lns prefixed by four spaces and followed by '\n',
+                                then last prefixed by four spaces unless it is empty;
+     alg_items kind a b st    — the (side, slot) items a set-algebra adaptor in state st still has
+                                to yield, by the specification of Algebra.v / Algebra2.v
+                                ((false, i) = slot i of a, (true, i) = slot i of b);
+     alg_keys a b items       — the keys those items designate;
+     alg_spec_list kind a b   — everything the adaptor yields in all, as entries: Union (kind 2) =
+                                all of b then the entries of a not in b; SymmetricDifference (3) =
+                                a\b then b\a; Intersection (1) = the entries of a that are in b;
+                                Difference / DifferenceRef (any other kind) = the entries of a not
+                                in b  ([mem kcls b k] = "b has a key of k's class");
+     ast_ok a b kind st       — the adaptor state lies inside the operands (ExecSafe; true of
+                                every state reached from alg_init by alg_next);
+     eq_only s s'             — between callback states s and s' ONLY the comparison counter n_eq
+                                may have moved (upwards); n_clone, n_call, next_id are equal.   *)
+Require Import Model.SetOps.
+Require Import Proofs.Safety3 Proofs.Algebra Proofs.Algebra2 Proofs.ExecSafe.
+Require Import Proofs.MoreFmt.
+
+(* -------------------------------------------------------------------------- *)
+(* Finding 1: "(plain and alternate form)" — the alternate form characterised.
+
+   The PadAdapter ([pad]) in general: whatever is written through it comes out with every
+   line indented by four spaces — also empty lines; an unterminated last line too unless it
+   is empty.  [split_nl] is a total function, so this holds for EVERY string. *)
+Theorem C19_pad_indent_lines :
+  forall s : str, pad s = indent_lines (fst (split_nl s)) (snd (split_nl s)).
+Proof. exact pad_indent_lines. Qed.
+Print Assumptions C19_pad_indent_lines.
+
+(* [split_nl] really is the decomposition into lines *)
+Theorem C19_split_nl_spec :
+  forall s : str,
+    unlines_nl (fst (split_nl s)) (snd (split_nl s)) = s /\
+    Forall nlfree (fst (split_nl s)) /\ nlfree (snd (split_nl s)).
+Proof. exact split_nl_spec. Qed.
+Print Assumptions C19_split_nl_spec.
+
+(* one newline-free line followed by '\n': indent, the line, '\n' *)
+Theorem C19_pad_line :
+  forall t : str, nlfree t -> pad (t ++ [ch_nl]) = s_indent ++ t ++ [ch_nl].
+Proof. exact pad_line. Qed.
+Print Assumptions C19_pad_line.
+
+(* Map {:#?}.  Hypothesis: no entry rendering contains a newline (true of scalars, strings
+   without '\n', and of the interpreter's elements: C19_dbg_kv_nlfree).  Then the output is
+   "{}" for no entry and otherwise "{\n", one line "    k: v,\n" per entry in order, "}". *)
+Theorem C19_debug_map_alt :
+  forall (K V : Type) (dk : K -> str) (dv : V -> str) (l : list (K * V)),
+    (forall p : K * V, In p l -> ~ In ch_nl (dk (fst p) ++ dv (snd p))) ->
+    debug_map dk dv true l =
+    match l with
+    | [] => [ch_lbrace; ch_rbrace]
+    | _ :: _ =>
+        [ch_lbrace; ch_nl] ++
+        concat (List.map (fun p : K * V => s_indent ++ dk (fst p) ++ s_colon_sp ++ dv (snd p) ++ s_comma_nl) l) ++
+        [ch_rbrace]
+    end.
+Proof. exact (@debug_map_alt). Qed.
+Print Assumptions C19_debug_map_alt.
+
+(* Set {:#?}: "{}" or "{\n", "    k,\n" per element, "}" *)
+Theorem C19_debug_set_alt :
+  forall (K : Type) (dk : K -> str) (l : list K),
+    (forall k : K, In k l -> ~ In ch_nl (dk k)) ->
+    debug_set dk true l =
+    match l with
+    | [] => [ch_lbrace; ch_rbrace]
+    | _ :: _ =>
+        [ch_lbrace; ch_nl] ++ concat (List.map (fun k : K => s_indent ++ dk k ++ s_comma_nl) l) ++ [ch_rbrace]
+    end.
+Proof. exact (@debug_set_alt). Qed.
+Print Assumptions C19_debug_set_alt.
+
+(* Keys / IntoKeys / set adaptors, Values / ValuesMut / IntoValues {:#?}:
+   "[]" or "[\n", "    x,\n" per item, "]" *)
+Theorem C19_debug_keys_alt :
+  forall (K : Type) (dk : K -> str) (l : list K),
+    (forall k : K, In k l -> ~ In ch_nl (dk k)) ->
+    debug_keys dk true l =
+    match l with
+    | [] => [ch_lbrack; ch_rbrack]
+    | _ :: _ =>
+        [ch_lbrack; ch_nl] ++ concat (List.map (fun k : K => s_indent ++ dk k ++ s_comma_nl) l) ++ [ch_rbrack]
+    end.
+Proof. exact (@debug_keys_alt). Qed.
+Print Assumptions C19_debug_keys_alt.
+
+Theorem C19_debug_values_alt :
+  forall (V : Type) (dv : V -> str) (l : list V),
+    (forall v : V, In v l -> ~ In ch_nl (dv v)) ->
+    debug_values dv true l =
+    match l with
+    | [] => [ch_lbrack; ch_rbrack]
+    | _ :: _ =>
+        [ch_lbrack; ch_nl] ++ concat (List.map (fun v : V => s_indent ++ dv v ++ s_comma_nl) l) ++ [ch_rbrack]
+    end.
+Proof. exact (@debug_values_alt). Qed.
+Print Assumptions C19_debug_values_alt.
+
+(* Iter / IterMut / Drain / IntoIter {:#?}: a list of pretty-printed 2-tuples; each tuple is
+   four lines, indented once by the list and its fields once more by the tuple:
+   "[\n"  ( "    (\n"  "        k,\n"  "        v,\n"  "    ),\n" )*  "]" *)
+Theorem C19_debug_pairs_alt :
+  forall (K V : Type) (dk : K -> str) (dv : V -> str) (l : list (K * V)),
+    (forall p : K * V, In p l -> ~ In ch_nl (dk (fst p) ++ dv (snd p))) ->
+    debug_pairs dk dv true l =
+    match l with
+    | [] => [ch_lbrack; ch_rbrack]
+    | _ :: _ =>
+        [ch_lbrack; ch_nl] ++
+        concat (List.map (fun p : K * V =>
+                  (s_indent ++ [ch_lpar; ch_nl]) ++
+                  (s_indent ++ s_indent ++ dk (fst p) ++ s_comma_nl) ++
+                  (s_indent ++ s_indent ++ dv (snd p) ++ s_comma_nl) ++
+                  (s_indent ++ [ch_rpar] ++ s_comma_nl)) l) ++
+        [ch_rbrack]
+    end.
+Proof. exact (@debug_pairs_alt). Qed.
+Print Assumptions C19_debug_pairs_alt.
+
+(* THE GENERAL CASE, no hypothesis: element renderings may contain newlines (nested
+   pretty-printed structures).  Each entry "k: v,\n" (Map), "x,\n" (Set / lists), "<tuple>,\n"
+   (pair lists) is cut into its lines and every line is indented. *)
+Theorem C19_debug_map_alt_lines :
+  forall (K V : Type) (dk : K -> str) (dv : V -> str) (l : list (K * V)),
+    debug_map dk dv true l =
+    match l with
+    | [] => [ch_lbrace; ch_rbrace]
+    | _ :: _ =>
+        [ch_lbrace; ch_nl] ++
+        concat (List.map (fun p : K * V =>
+                  let e := dk (fst p) ++ s_colon_sp ++ dv (snd p) ++ s_comma_nl in
+                  indent_lines (fst (split_nl e)) (snd (split_nl e))) l) ++
+        [ch_rbrace]
+    end.
+Proof. exact (@debug_map_alt_lines). Qed.
+Print Assumptions C19_debug_map_alt_lines.
+
+Theorem C19_debug_set_alt_lines :
+  forall (K : Type) (dk : K -> str) (l : list K),
+    debug_set dk true l =
+    match l with
+    | [] => [ch_lbrace; ch_rbrace]
+    | _ :: _ =>
+        [ch_lbrace; ch_nl] ++
+        concat (List.map (fun k : K => indent_lines (fst (split_nl (dk k ++ s_comma_nl)))
+                                                    (snd (split_nl (dk k ++ s_comma_nl)))) l) ++
+        [ch_rbrace]
+    end.
+Proof. exact (@debug_set_alt_lines). Qed.
+Print Assumptions C19_debug_set_alt_lines.
+
+Theorem C19_debug_pairs_alt_lines :
+  forall (K V : Type) (dk : K -> str) (dv : V -> str) (l : list (K * V)),
+    debug_pairs dk dv true l =
+    match l with
+    | [] => [ch_lbrack; ch_rbrack]
+    | _ :: _ =>
+        [ch_lbrack; ch_nl] ++
+        concat (List.map (fun p : K * V =>
+                  let e := dbg_tuple true (dk (fst p)) (dv (snd p)) ++ s_comma_nl in
+                  indent_lines (fst (split_nl e)) (snd (split_nl e))) l) ++
+        [ch_rbrack]
+    end.
+Proof. exact (@debug_pairs_alt_lines). Qed.
+Print Assumptions C19_debug_pairs_alt_lines.
+
+(* the newline-free hypothesis holds for everything the interpreter formats *)
+Theorem C19_dbg_kv_nlfree :
+  forall p : key * vobj, ~ In ch_nl (dbg_key (fst p) ++ dbg_val (snd p)).
+Proof. exact dbg_kv_nlfree. Qed.
+Print Assumptions C19_dbg_kv_nlfree.
+
+(* -------------------------------------------------------------------------- *)
+(* Finding 4 (order clause) + finding 1 on the interpreter: format! in the three styles, fully
+   explicit.  The rendered entries are [List.map render (Spec.elems (self w))]: slot order =
+   iteration order; the final world is the initial one. *)
+Theorem C19_format_m_explicit :
+  forall (style : N) (w : world key vobj cstate),
+    WF (self w) ->
+    format_m style w =
+    Ok (r_str
+          (if (style =? 0)%N then
+             [ch_lbrace] ++
+             join s_comma_sp (List.map (fun p : key * vobj => dsp_key (fst p) ++ s_colon_sp ++ dsp_val (snd p))
+                                       (Spec.elems (self w))) ++ [ch_rbrace]
+           else if (style =? 2)%N then
+             match Spec.elems (self w) with
+             | [] => [ch_lbrace; ch_rbrace]
+             | _ :: _ =>
+                 [ch_lbrace; ch_nl] ++
+                 concat (List.map (fun p : key * vobj => s_indent ++ dbg_key (fst p) ++ s_colon_sp ++
+                                                         dbg_val (snd p) ++ s_comma_nl)
+                                  (Spec.elems (self w))) ++
+                 [ch_rbrace]
+             end
+           else
+             [ch_lbrace] ++
+             join s_comma_sp (List.map (fun p : key * vobj => dbg_key (fst p) ++ s_colon_sp ++ dbg_val (snd p))
+                                       (Spec.elems (self w))) ++ [ch_rbrace])) w.
+Proof. exact format_m_explicit. Qed.
+Print Assumptions C19_format_m_explicit.
+
+Theorem C19_format_s_explicit :
+  forall (style : N) (w : world key unit cstate),
+    WF (self w) ->
+    format_s style w =
+    Ok (r_str
+          (if (style =? 0)%N then
+             [ch_lbrace] ++ join s_comma_sp (List.map dsp_key (List.map fst (Spec.elems (self w)))) ++ [ch_rbrace]
+           else if (style =? 2)%N then
+             match List.map fst (Spec.elems (self w)) with
+             | [] => [ch_lbrace; ch_rbrace]
+             | _ :: _ =>
+                 [ch_lbrace; ch_nl] ++
+                 concat (List.map (fun k : key => s_indent ++ dbg_key k ++ s_comma_nl)
+                                  (List.map fst (Spec.elems (self w)))) ++ [ch_rbrace]
+             end
+           else
+             [ch_lbrace] ++ join s_comma_sp (List.map dbg_key (List.map fst (Spec.elems (self w)))) ++ [ch_rbrace])) w.
+Proof. exact format_s_explicit. Qed.
+Print Assumptions C19_format_s_explicit.
+
+(* "in iteration order", tied to the iteration protocol: iter() and len calls of next() visit
+   the slots 0, 1, ..., len-1 (each once, in order, then the iterator is exhausted), change
+   nothing, the entries held by those slots are, in that order, [Spec.elems (self w)] — and
+   format! renders exactly that list. *)
+Theorem C19_iter_yields_elems :
+  forall (K V T : Type) (w : world K V T),
+    WF (self w) ->
+    wp (c <- iter ;; iter_run (len (self w)) c)
+       (fun (r : list nat * cursor) (w' : world K V T) =>
+          w' = w /\ fst r = seq 0 (len (self w)) /\ cursor_len (snd r) = 0 /\
+          List.map (fun i : nat => nth_error (slots (self w)) i) (fst r) =
+          List.map (fun p : K * V => Some (Some p)) (Spec.elems (self w)))
+       (fun _ : world K V T => False) w.
+Proof. exact (@iter_yields_elems). Qed.
+Print Assumptions C19_iter_yields_elems.
+
+Theorem C19_format_m_order :
+  forall (style : N) (w : world key vobj cstate),
+    WF (self w) ->
+    wp (c <- iter ;; iter_run (len (self w)) c)
+       (fun (r : list nat * cursor) (w' : world key vobj cstate) =>
+          w' = w /\ fst r = seq 0 (len (self w)) /\
+          List.map (fun i : nat => nth_error (slots (self w)) i) (fst r) =
+          List.map (fun p : key * vobj => Some (Some p)) (Spec.elems (self w)) /\
+          format_m style w' =
+          Ok (r_str (if (style =? 0)%N then display_map dsp_key dsp_val (Spec.elems (self w))
+                     else debug_map dbg_key dbg_val (style =? 2)%N (Spec.elems (self w)))) w')
+       (fun _ : world key vobj cstate => False) w.
+Proof. exact format_m_order. Qed.
+Print Assumptions C19_format_m_order.
+
+Theorem C19_format_s_order :
+  forall (style : N) (w : world key unit cstate),
+    WF (self w) ->
+    wp (c <- iter ;; iter_run (len (self w)) c)
+       (fun (r : list nat * cursor) (w' : world key unit cstate) =>
+          w' = w /\ fst r = seq 0 (len (self w)) /\
+          List.map (fun i : nat => nth_error (slots (self w)) i) (fst r) =
+          List.map (fun p : key * unit => Some (Some p)) (Spec.elems (self w)) /\
+          format_s style w' =
+          Ok (r_str (if (style =? 0)%N then display_set dsp_key (List.map fst (Spec.elems (self w)))
+                     else debug_set dbg_key (style =? 2)%N (List.map fst (Spec.elems (self w))))) w')
+       (fun _ : world key unit cstate => False) w.
+Proof. exact format_s_order. Qed.
+Print Assumptions C19_format_s_order.
+
+(* -------------------------------------------------------------------------- *)
+(* Finding 2: "every iterator kind", down to the rendered string.
+
+   Borrowing iterators on a Map.  kind: 0 Iter | 1 IterMut | 2 Keys | 3 Values | 4 ValuesMut
+   (Exec.dbg_iter picks debug_keys / debug_values / debug_pairs by kind).  After iter() and n
+   calls of next() the Debug output, plain or alternate, is the rendering of exactly the
+   entries not yet yielded — [skipn n] of the content, in iteration order — and the world is
+   LITERALLY the initial one (formatting changes nothing). *)
+Theorem C19_iter_debug_rest_render :
+  forall (kind : N) (alt : bool) (n : nat) (w : world key vobj cstate),
+    WF (self w) ->
+    wp (c <- iter ;; r <- iter_run n c ;; dbg_iter kind alt (snd r))
+       (fun (s : list N) (w' : world key vobj cstate) =>
+          w' = w /\
+          s = r_str (if (kind =? 2)%N
+                     then debug_keys dbg_key alt (List.map fst (skipn n (Spec.elems (self w))))
+                     else if (kind =? 3)%N || (kind =? 4)%N
+                          then debug_values dbg_val alt (List.map snd (skipn n (Spec.elems (self w))))
+                          else debug_pairs dbg_key dbg_val alt (skipn n (Spec.elems (self w)))))
+       (fun _ : world key vobj cstate => False) w.
+Proof. exact iter_debug_rest_render. Qed.
+Print Assumptions C19_iter_debug_rest_render.
+
+(* the "(k, v)"-tuple Debug of Iter / IterMut for ANY value type (a Set is a Map<T,()>) and
+   any element renderings *)
+Theorem C19_iter_debug_rest_render_pairs :
+  forall (V : Type) (dk : key -> str) (dv : V -> str) (alt : bool) (n : nat) (w : world key V cstate),
+    WF (self w) ->
+    wp (c <- iter ;; r <- iter_run n c ;; dbg_range dk dv alt (snd r))
+       (fun (s : list N) (w' : world key V cstate) =>
+          w' = w /\ s = r_str (debug_pairs dk dv alt (skipn n (Spec.elems (self w)))))
+       (fun _ : world key V cstate => False) w.
+Proof. exact (@iter_debug_rest_render_pairs). Qed.
+Print Assumptions C19_iter_debug_rest_render_pairs.
+
+(* the interpreter's own session (Exec.iter_steps): the mutable kinds 1 and 4 WRITE a new
+   payload (wd + step number) through every reference they are handed.  The entries not yet
+   yielded are untouched by that: the Debug output is still the rendering of [skipn n] of
+   the ORIGINAL content; log and callback state unchanged, length unchanged. *)
+Theorem C19_iter_steps_debug_rest :
+  forall (kind wd : N) (alt : bool) (n : nat) (w : world key vobj cstate),
+    WF (self w) ->
+    wp (c <- iter ;; r <- iter_steps kind wd n 0 c [] ;; dbg_iter kind alt (snd r))
+       (fun (s : list N) (w' : world key vobj cstate) =>
+          s = r_str (if (kind =? 2)%N
+                     then debug_keys dbg_key alt (List.map fst (skipn n (Spec.elems (self w))))
+                     else if (kind =? 3)%N || (kind =? 4)%N
+                          then debug_values dbg_val alt (List.map snd (skipn n (Spec.elems (self w))))
+                          else debug_pairs dbg_key dbg_val alt (skipn n (Spec.elems (self w)))) /\
+          log w' = log w /\ cb w' = cb w /\ len (self w') = len (self w) /\
+          skipn n (Spec.elems (self w')) = skipn n (Spec.elems (self w)))
+       (fun _ : world key vobj cstate => False) w.
+Proof. exact iter_steps_debug_rest. Qed.
+Print Assumptions C19_iter_steps_debug_rest.
+
+(* Owning iterators.  kind: 0 IntoIter | 1 IntoKeys | 2 IntoValues (Exec.dbg_into).  They pop
+   from the BACK (yielded = firstn n (rev elems)); their Debug formats the wrapped map, so it
+   lists the not-yet-yielded entries in SLOT order: the first len - min n len entries of the
+   original content.  In the state w1 reached after n calls of next(), formatting returns
+   that string and w1 itself (formatting changes nothing). *)
+Theorem C19_into_debug_rest_render_at :
+  forall (kind : N) (alt : bool) (n : nat) (w : world key vobj cstate),
+    WF (self w) ->
+    wp (into_run n)
+       (fun (r : list (key * vobj)) (w1 : world key vobj cstate) =>
+          r = firstn n (rev (Spec.elems (self w))) /\
+          let rest := firstn (len (self w) - Nat.min n (len (self w))) (Spec.elems (self w)) in
+          dbg_into kind alt w1 =
+          Ok (r_str (if (kind =? 1)%N then debug_keys dbg_key alt (List.map fst rest)
+                     else if (kind =? 2)%N then debug_values dbg_val alt (List.map snd rest)
+                          else debug_pairs dbg_key dbg_val alt rest)) w1)
+       (fun _ : world key vobj cstate => False) w.
+Proof. exact into_debug_rest_render_at. Qed.
+Print Assumptions C19_into_debug_rest_render_at.
+
+Theorem C19_into_debug_rest_render :
+  forall (kind : N) (alt : bool) (n : nat) (w : world key vobj cstate),
+    WF (self w) ->
+    wp (_ <- into_run n ;; dbg_into kind alt)
+       (fun (s : list N) (w' : world key vobj cstate) =>
+          let rest := firstn (len (self w) - Nat.min n (len (self w))) (Spec.elems (self w)) in
+          s = r_str (if (kind =? 1)%N then debug_keys dbg_key alt (List.map fst rest)
+                     else if (kind =? 2)%N then debug_values dbg_val alt (List.map snd rest)
+                          else debug_pairs dbg_key dbg_val alt rest) /\
+          WF (self w') /\ Spec.elems (self w') = rest /\ cap (self w') = cap (self w) /\ log w' = log w)
+       (fun _ : world key vobj cstate => False) w.
+Proof. exact into_debug_rest_render. Qed.
+Print Assumptions C19_into_debug_rest_render.
+
+(* the interpreter's own session (Exec.into_steps): into_keys destroys the value of every popped
+   pair, into_values the key — user Drop code, ANY script; if it panics the session is over and
+   nothing is claimed (panic postcondition True); otherwise as above *)
+Theorem C19_into_steps_debug_rest :
+  forall (sc : script) (kind : N) (alt : bool) (n : nat) (acc : list N) (w : world key vobj cstate),
+    WF (self w) ->
+    wp (into_steps sc kind n acc)
+       (fun (_ : list N) (w1 : world key vobj cstate) =>
+          let rest := firstn (len (self w) - Nat.min n (len (self w))) (Spec.elems (self w)) in
+          dbg_into kind alt w1 =
+          Ok (r_str (if (kind =? 1)%N then debug_keys dbg_key alt (List.map fst rest)
+                     else if (kind =? 2)%N then debug_values dbg_val alt (List.map snd rest)
+                          else debug_pairs dbg_key dbg_val alt rest)) w1)
+       (fun _ : world key vobj cstate => True) w.
+Proof. exact into_steps_debug_rest. Qed.
+Print Assumptions C19_into_steps_debug_rest.
+
+(* Set kinds: the model has NO Debug function for SetIter / SetIntoIter / SetDrain
+   (Exec.set_iter_session renders none; drain_session is run with with_dbg = false for a Set:
+   "SetDrain does not implement Debug").  What there is for a Set is covered above:
+   C19_iter_debug_rest_render_pairs and C19_drain_debug_rest_render hold for V = unit, and the
+   set-algebra adaptors follow. *)
+
+(* -------------------------------------------------------------------------- *)
+(* Finding 3: Debug of Union / Intersection / Difference / DifferenceRef / SymmetricDifference
+   (kind 2 / 1 / 0 / any other / 3).  Their impl is
+   f.debug_list().entries(self.clone()).finish(): a CLONE of the adaptor is run to exhaustion —
+   which calls the user's == — and the keys it yields are listed.  Interpreter: alg_fold (what
+   the clone yields) then alg_debug.
+
+   At ANY state st inside the operands, honest script: returns normally; the string is the
+   debug_list rendering (plain or alternate) of the keys of exactly the items still to come,
+   in the order the adaptor would yield them, none lost; the world is [stable] (register and
+   event log unchanged: nothing is cloned or dropped, only the cursor is copied); the operands
+   a, b and the adaptor state st are VALUES in this model, so they cannot change at all — in
+   particular the iterator's position does not advance; of the callback state only the
+   comparison counter n_eq moves. *)
+Theorem C19_alg_debug_spec :
+  forall (sc : script) (kind : N) (a b : map key unit) (st : astate) (alt : bool)
+         (w : world key unit cstate),
+    honest sc -> WF a -> WF b -> ast_ok a b kind st ->
+    wp (l <- alg_fold sc kind a b st ;; ret (alg_debug a b l alt))
+       (fun (s : list N) (w' : world key unit cstate) =>
+          s = r_str (debug_keys dbg_key alt (alg_keys a b (alg_items kind a b st))) /\
+          length (alg_keys a b (alg_items kind a b st)) = length (alg_items kind a b st) /\
+          stable w w' /\ eq_only (cb w) (cb w'))
+       (fun _ : world key unit cstate => False) w.
+Proof. exact alg_debug_spec. Qed.
+Print Assumptions C19_alg_debug_spec.
+
+(* EVERY script (adversarial ==, injected faults): no UB; the register is unchanged also
+   when == panics; only n_eq moves *)
+Theorem C19_alg_debug_any_script :
+  forall (sc : script) (kind : N) (a b : map key unit) (st : astate) (alt : bool)
+         (w : world key unit cstate),
+    WF a -> WF b -> ast_ok a b kind st ->
+    wp (l <- alg_fold sc kind a b st ;; ret (alg_debug a b l alt))
+       (fun (_ : list N) (w' : world key unit cstate) => self w' = self w /\ eq_only (cb w) (cb w'))
+       (fun w' : world key unit cstate => self w' = self w /\ eq_only (cb w) (cb w')) w.
+Proof. exact alg_debug_any_script. Qed.
+Print Assumptions C19_alg_debug_any_script.
+
+(* each next() pops the head of [alg_items]: "still to come" is relative to the position *)
+Theorem C19_alg_next_items :
+  forall (sc : script) (kind : N) (a b : map key unit) (st : astate) (w : world key unit cstate),
+    honest sc -> WF a -> WF b -> ast_ok a b kind st ->
+    wp (alg_next sc kind a b st)
+       (fun (r : option (bool * nat) * astate) (w' : world key unit cstate) =>
+          stable w w' /\ ast_ok a b kind (snd r) /\ yield_ok a b (fst r) /\
+          fst r = hd_error (alg_items kind a b st) /\
+          alg_items kind a b (snd r) = tl (alg_items kind a b st))
+       (fun _ : world key unit cstate => False) w.
+Proof. exact alg_next_items. Qed.
+Print Assumptions C19_alg_next_items.
+
+(* at creation the items are, as entries of the operands, the mathematical result *)
+Theorem C19_alg_items_init :
+  forall (kind : N) (a b : map key unit),
+    WF a -> WF b ->
+    List.map (item_pair a b) (alg_items kind a b (alg_st0 kind a b)) =
+    List.map Some (alg_spec_list kind a b).
+Proof. exact alg_items_init. Qed.
+Print Assumptions C19_alg_items_init.
+
+(* THE SESSION (Exec.alg_session up to its Debug observation): create the adaptor, call next()
+   n times, format it.  The string is the debug_list rendering of the keys of [skipn n] of
+   everything the adaptor yields in all — exactly the elements still to come, in order. *)
+Theorem C19_alg_session_debug :
+  forall (sc : script) (kind : N) (a b : map key unit) (n : nat) (alt : bool)
+         (w : world key unit cstate),
+    honest sc -> WF a -> WF b ->
+    wp (st <- alg_init kind a b ;;
+        r <- alg_steps sc kind a b n st [] ;;
+        l <- alg_fold sc kind a b (snd r) ;;
+        ret (alg_debug a b l alt))
+       (fun (s : list N) (w' : world key unit cstate) =>
+          s = r_str (debug_keys dbg_key alt (skipn n (List.map fst (alg_spec_list kind a b)))) /\
+          stable w w' /\ eq_only (cb w) (cb w'))
+       (fun _ : world key unit cstate => False) w.
+Proof. exact alg_session_debug. Qed.
+Print Assumptions C19_alg_session_debug.
+
+(* -------------------------------------------------------------------------- *)
+(* Non-vacuity of the appended theorems. *)
+Definition C19_sc0 : script := {| sc_adv := false; sc_seed := 0; sc_fk := 0; sc_fa := 0 |}.
+Definition C19_sa : map key unit := {| len := 2; slots := [Some (k_ 1 5, tt); Some (k_ 3 6, tt)] |}.
+Definition C19_sb : map key unit := {| len := 2; slots := [Some (k_ 7 6, tt); Some (k_ 9 8, tt); None] |}.
+Definition C19_ws (m : map key unit) : world key unit cstate := {| cb := cs0; log := []; self := m |}.
+
+Example C19_example_honest : honest C19_sc0.
+Proof. split; reflexivity. Qed.
+
+Example C19_example_WF_sa : WF C19_sa.
+Proof.
+  split; [cbn; lia|]. intros i Hi. cbn [len C19_sa] in Hi.
+  destruct i as [|[|i]]; [eexists; reflexivity | eexists; reflexivity | lia].
+Qed.
+
+Example C19_example_WF_sb : WF C19_sb.
+Proof.
+  split; [cbn; lia|]. intros i Hi. cbn [len C19_sb] in Hi.
+  destruct i as [|[|i]]; [eexists; reflexivity | eexists; reflexivity | lia].
+Qed.
+
+(* {:#?} of m3: "{\n    K1c5: V2d7,\n    K3c6: V4d8,\n    K5c7: V6d9,\n}" (53 characters) *)
+Example C19_example_debug_alt :
+  format_m 2 (w_of m3) =
+  Ok (r_str ([123; 10] ++
+             ([32; 32; 32; 32] ++ [75; 49; 99; 53; 58; 32; 86; 50; 100; 55; 44; 10]) ++
+             ([32; 32; 32; 32] ++ [75; 51; 99; 54; 58; 32; 86; 52; 100; 56; 44; 10]) ++
+             ([32; 32; 32; 32] ++ [75; 53; 99; 55; 58; 32; 86; 54; 100; 57; 44; 10]) ++ [125])%N)
+     (w_of m3).
+Proof. vm_compute. reflexivity. Qed.
+
+(* a string with an inner newline through the PadAdapter: "a\nb" -> "    a\n    b" *)
+Example C19_example_pad : pad [97; 10; 98]%N = [32; 32; 32; 32; 97; 10; 32; 32; 32; 32; 98]%N.
+Proof. reflexivity. Qed.
+
+(* Keys over m3 after one next(): "[K3c6, K5c7]"; the world is unchanged *)
+Example C19_example_keys_debug :
+  (c <- iter ;; r <- iter_run 1 c ;; dbg_iter 2 false (snd r)) (w_of m3) =
+  Ok (r_str (debug_keys dbg_key false [k_ 3 6; k_ 5 7])) (w_of m3).
+Proof. vm_compute. reflexivity. Qed.
+
+(* IntoValues over m3 after one next() (which yielded the LAST value): "[V2d7, V4d8]" *)
+Example C19_example_into_values_debug :
+  match (_ <- into_run 1 ;; dbg_into 2 false) (w_of m3) with
+  | Ok s _ => s = r_str (debug_values dbg_val false [v_ 2 7; v_ 4 8])
+  | _ => False
+  end.
+Proof. vm_compute. reflexivity. Qed.
+
+(* Union of sa = {c5, c6} and sb = {c6, c8}: yields sb's K7c6, K9c8, then sa's K1c5.  After one
+   next() its Debug shows the two still to come; register, log untouched; 3 == calls counted *)
+Example C19_example_union_debug :
+  match (st <- alg_init 2 C19_sa C19_sb ;;
+         r <- alg_steps C19_sc0 2 C19_sa C19_sb 1 st [] ;;
+         l <- alg_fold C19_sc0 2 C19_sa C19_sb (snd r) ;;
+         ret (alg_debug C19_sa C19_sb l false)) (C19_ws C19_sa) with
+  | Ok s w' => s = r_str (debug_keys dbg_key false [k_ 9 8; k_ 1 5]) /\
+               self w' = C19_sa /\ log w' = [] /\
+               cb w' = {| n_eq := 3; n_clone := 0; n_call := 0; next_id := 100000 |}
+  | _ => False
+  end.
+Proof. vm_compute. repeat split. Qed.
+
+Example C19_example_union_spec_list :
+  List.map fst (alg_spec_list 2 C19_sa C19_sb) = [k_ 7 6; k_ 9 8; k_ 1 5].
+Proof. vm_compute. reflexivity. Qed.
